@@ -726,6 +726,11 @@ func (endp *Endpoint) wrapErr(msgId string, mangleUTF8 bool, command string, err
 		res.Message = smtpErr.Message
 	}
 
+	// The text may come from anywhere (e.g. a multi-line reply of a
+	// downstream server). A line break in it would end the reply line early
+	// and the rest would be sent as a line without a reply code.
+	res.Message = strings.NewReplacer("\r\n", " ", "\r", " ", "\n", " ").Replace(res.Message)
+
 	if msgId != "" {
 		res.Message += " (msg ID = " + msgId + ")"
 	}
